@@ -223,7 +223,7 @@ def t_rand(I, *size, device=None, dtype=None, requires_grad=False, **kw):
         I.ctx.axiom(z3.And(v >= 0, v < 1))
 
     t = Tensor(uninterp_tensor("rand", dims, "real", on))
-    I.ctx.ghost.setdefault("rand", []).append(t)
+    I.ctx.ghost.setdefault("rand", []).append(Tensor(t.val))  # snapshot: the cell may be updated in place
     return t
 
 
@@ -234,7 +234,7 @@ def t_rand_like(I, a, **kw):
         I.ctx.axiom(z3.And(v >= 0, v < 1))
 
     t = Tensor(uninterp_tensor("rand", a.shape, "real", on))
-    I.ctx.ghost.setdefault("rand", []).append(t)
+    I.ctx.ghost.setdefault("rand", []).append(Tensor(t.val))  # snapshot: the cell may be updated in place
     return t
 
 
